@@ -16,6 +16,25 @@ type c17Gen struct {
 	w      *c17World
 	cnt    *Counters
 	script []c17Op // a directed sequence being played
+	idx    int     // history index
+	matrix int     // matrix queries made so far in this history
+}
+
+// anyContent: a proposal of the given kind
+func (g *c17Gen) anyContent(k string, perm *c17Perm, prev *c17Snap) *c17Content {
+	switch k {
+	case "text", "cchange", "cancelupgrade", "poolspend":
+		return &c17Content{Kind: k}
+	case "upgrade":
+		return g.genUpgrade()
+	case "param":
+		for {
+			if c := g.genContent0(perm, prev); c.Kind == "param" {
+				return c
+			}
+		}
+	}
+	return g.genCommunity(k)
 }
 
 // staleUpgradeScript: a software-upgrade proposal that is valid when submitted and
@@ -42,7 +61,11 @@ func (g *c17Gen) staleUpgradeScript() []c17Op {
 	}
 	c := pick(r, cands)
 	pid := w.nextPid
-	ops := []c17Op{{Kind: "submit", Com: c.ID, A: c.Members[0], Content: &c17Content{Kind: "upgrade", H: w.height + int64(1+r.Intn(2))}}}
+	h := w.height + int64(1+r.Intn(2))
+	if r.Chance(3, 10) {
+		h = w.height + 40 // still ahead when it is decided: scheduled
+	}
+	ops := []c17Op{{Kind: "submit", Com: c.ID, A: c.Members[0], Content: &c17Content{Kind: "upgrade", H: h}}}
 	var votes []c17Op
 	for _, m := range c.Members {
 		votes = append(votes, c17Op{Kind: "vote", Pid: pid, A: m, Vt: 1})
@@ -61,6 +84,123 @@ func (g *c17Gen) staleUpgradeScript() []c17Op {
 	}
 	if g.cnt != nil {
 		g.cnt.Inc("split:script:stale-upgrade")
+	}
+	return ops
+}
+
+// communityScript: a community proposal of a kind one of the committee's permissions
+// allows (or not, now and then), with amounts the keepers can serve, voted through
+// by every member and decided at the next block or at the deadline.
+func (g *c17Gen) communityScript() []c17Op {
+	w, r := g.w, g.r
+	kind := pick(r, communityKinds)
+	var cands []c17Com
+	for _, id := range g.comIDs() {
+		c := w.coms[id]
+		if c.Token {
+			continue
+		}
+		if anyTypeAllows(c.Perms, kind) || r.Chance(1, 10) {
+			cands = append(cands, c)
+		}
+	}
+	if len(cands) == 0 {
+		return nil
+	}
+	c := pick(r, cands)
+	content := &c17Content{Kind: kind}
+	switch kind {
+	case "lenddeposit":
+		content.Coins = pick(r, [][]c17Coin{{{"ukava", 1_000_000}}, {{"usdx", 2_000_000}}, {{"ukava", 3_000_000}, {"usdx", 1_000_000}}, {{"ukava", 3_000_000_000}}})
+	case "lendwithdraw":
+		content.Coins = pick(r, [][]c17Coin{{{"ukava", 1_000_000}}, {{"usdx", 2_000_000}}, {{"ukava", 700_000_000}, {"usdx", 1_000_000}}, {{"ukava", 1_500_000_000}}, {{"usdx", 1_000_000_000}}})
+	case "cdprepay":
+		content.CType = "xrp-a"
+		content.Coins = []c17Coin{{"usdx", pick(r, []int64{1_000_000, 5_000_000, 20_000_000, 30_000_000, 60_000_000})}}
+	default:
+		content.CType = "xrp-a"
+		content.Coins = []c17Coin{{"xrp", pick(r, []int64{1_000_000_000, 40_000_000_000, 100_000_000_000})}}
+	}
+	pid := w.nextPid
+	ops := []c17Op{{Kind: "submit", Com: c.ID, A: c.Members[0], Content: content}}
+	for _, m := range c.Members {
+		ops = append(ops, c17Op{Kind: "vote", Pid: pid, A: m, Vt: 1})
+	}
+	if r.Chance(2, 5) { // a second one of the same kind in the same block: the first uses up what the second needs
+		switch kind {
+		case "lendwithdraw":
+			content.Coins = []c17Coin{{"usdx", 1_000_000_000}}
+		case "cdprepay":
+			content.Coins = []c17Coin{{"usdx", 60_000_000}}
+		case "cdpwithdraw":
+			content.Coins = []c17Coin{{"xrp", 100_000_000_000}}
+		}
+		c2 := *content
+		ops = append(ops, c17Op{Kind: "submit", Com: c.ID, A: c.Members[0], Content: &c2})
+		for _, m := range c.Members {
+			ops = append(ops, c17Op{Kind: "vote", Pid: pid + 1, A: m, Vt: 1})
+		}
+	}
+	ops = append(ops, c17Op{Kind: "begin", T: w.now + 1})
+	if !c.FPTP {
+		ops = append(ops, c17Op{Kind: "begin", T: w.now + c.Duration})
+	}
+	if g.cnt != nil {
+		g.cnt.Inc("split:script:community")
+	}
+	return ops
+}
+
+// movedParamScript: a parameter-change proposal that its committee may submit now
+// (it changes debt_floor only, which the allow-list names) and may no longer enact
+// when it is decided, because x/gov changed a protected field (conversion_factor) of the
+// same parameter in between: the stored document now differs from the current value
+// in a protected field.  The permission re-check of enactProposal must close it Invalid.
+func (g *c17Gen) movedParamScript(prev *c17Snap) []c17Op {
+	w, r := g.w, g.r
+	var cands []c17Com
+	for _, id := range g.comIDs() {
+		c := w.coms[id]
+		if c.Token {
+			continue
+		}
+		all, single, _ := allowedFor(c.Perms, 2)
+		if all || !single["debt_floor"] || single["conversion_factor"] {
+			continue
+		}
+		cands = append(cands, c)
+	}
+	cur, err := parseJSON([]byte(prev.raws[2]))
+	if len(cands) == 0 || err != nil || cur.K != 'o' {
+		return nil
+	}
+	c := pick(r, cands)
+	other := func(name string, vals ...string) *jnode {
+		for _, v := range vals {
+			if x := cur.get(name); x == nil || x.text() != v {
+				return g.val(v)
+			}
+		}
+		return g.val(vals[0])
+	}
+	doc := cur.clone()
+	setKey(doc, "debt_floor", other("debt_floor", `"1"`, `"20000000"`))
+	moved := cur.clone()
+	setKey(moved, "conversion_factor", other("conversion_factor", `"8"`, `"6"`))
+	pid := w.nextPid
+	ops := []c17Op{
+		{Kind: "submit", Com: c.ID, A: c.Members[0], Content: &c17Content{Kind: "param", Changes: []c17Change{{2, doc.text()}}}},
+		{Kind: "apply", Content: &c17Content{Kind: "param", Changes: []c17Change{{2, moved.text()}}}},
+	}
+	for _, m := range c.Members {
+		ops = append(ops, c17Op{Kind: "vote", Pid: pid, A: m, Vt: 1})
+	}
+	ops = append(ops, c17Op{Kind: "begin", T: w.now + 1})
+	if !c.FPTP {
+		ops = append(ops, c17Op{Kind: "begin", T: w.now + c.Duration})
+	}
+	if g.cnt != nil {
+		g.cnt.Inc("split:script:moved-param")
 	}
 	return ops
 }
@@ -172,7 +312,8 @@ func c17GenPerm(r *Rng, allowPanic bool) c17Perm {
 func pick[T any](r *Rng, xs []T) T { return xs[r.Intn(len(xs))] }
 
 func c17GenSetup(r *Rng) c17Setup {
-	s := c17Setup{IncActive: r.Chance(1, 10), RefAssetSet: r.Chance(1, 2), EmptyAssets: r.Chance(1, 40), XrpbCoinZero: r.Chance(1, 2)}
+	s := c17Setup{IncActive: r.Chance(1, 10), RefAssetSet: r.Chance(1, 2), EmptyAssets: r.Chance(1, 40), XrpbCoinZero: r.Chance(1, 2),
+		PoolFunded: r.Chance(85, 100), HardDeposit: r.Chance(80, 100), Cdp: r.Chance(85, 100)}
 	perms := func(god bool) []c17Perm {
 		if god {
 			return []c17Perm{{Kind: "god"}}
@@ -181,14 +322,35 @@ func c17GenSetup(r *Rng) c17Setup {
 		if r.Chance(1, 2) {
 			ps = append(ps, c17Perm{Kind: "text"})
 		}
-		if r.Chance(8, 10) {
+		if r.Chance(7, 10) {
 			ps = append([]c17Perm{{Kind: "other"}}, ps...) // SoftwareUpgradePermission
+		}
+		// the three x/community permissions, alone and in combinations, before or after the others
+		for _, k := range []string{"cdprepay", "cdpwithdraw", "lendwithdraw"} {
+			if r.Chance(35, 100) {
+				if r.Chance(1, 2) {
+					ps = append(ps, c17Perm{Kind: k})
+				} else {
+					ps = append([]c17Perm{{Kind: k}}, ps...)
+				}
+			}
+		}
+		if r.Chance(1, 12) { // a committee without a ParamsChangePermission
+			var out []c17Perm
+			for _, q := range ps {
+				if q.Kind != "params" {
+					out = append(out, q)
+				}
+			}
+			if len(out) > 0 {
+				ps = out
+			}
 		}
 		return ps
 	}
 	s.Coms = []c17Com{
 		{ID: 1, Members: []int{0, 1, 2}, Perms: perms(false), Threshold: pick(r, []string{"0.5", "0.667", "1.0", "0.34"}), Duration: pick(r, []int64{50, 100, 200, 0}), FPTP: r.Chance(6, 10)},
-		{ID: 2, Members: []int{0, 1, 2, 3}, Perms: perms(r.Chance(1, 4)), Threshold: pick(r, []string{"0.5", "0.75", "0.25"}), Duration: pick(r, []int64{40, 100}), FPTP: r.Chance(2, 10)},
+		{ID: 2, Members: []int{0, 1, 2, 3}, Perms: perms(r.Chance(1, 3)), Threshold: pick(r, []string{"0.5", "0.75", "0.25"}), Duration: pick(r, []int64{40, 100}), FPTP: r.Chance(2, 10)},
 		{ID: 3, Token: true, Quorum: pick(r, []string{"0.4", "0.3", "0.0", "0.65"}), Members: []int{0, 5}, Perms: append(perms(false), c17Perm{Kind: "text"}),
 			Threshold: pick(r, []string{"0.5", "0.75", "0.6"}), Duration: pick(r, []int64{60, 100}), FPTP: r.Chance(5, 10)},
 	}
@@ -580,13 +742,79 @@ func (g *c17Gen) genUpgrade() *c17Content {
 	return &c17Content{Kind: "upgrade", H: g.w.height + int64(pick(g.r, []int{1, 1, 2, 2, 3, 4, 6, 40, 40, 0, -3}))}
 }
 
-func (g *c17Gen) genContent(perm *c17Perm, prev *c17Snap) *c17Content {
+// genCommunity: one of the four x/community proposals; amounts around what the community pool,
+// the module's hard deposit and its CDP hold, or ill-formed (ValidateBasic)
+func (g *c17Gen) genCommunity(kind string) *c17Content {
 	r := g.r
-	switch r.Pick(86, 11, 3) {
+	c := &c17Content{Kind: kind}
+	amt := func() int64 {
+		return int64(pick(r, []int{1, 1000, 1_000_000, 5_000_000, 20_000_000, 55_000_000, 1_000_000_000, 3_000_000_000, 9_000_000_000_000}))
+	}
+	switch kind {
+	case "lenddeposit", "lendwithdraw":
+		switch r.Pick(40, 25, 20, 15) {
+		case 0:
+			c.Coins = []c17Coin{{"ukava", amt()}}
+		case 1:
+			c.Coins = []c17Coin{{"usdx", amt()}}
+		case 2:
+			c.Coins = []c17Coin{{"ukava", amt()}, {"usdx", amt()}}
+		default:
+			c.Coins = []c17Coin{{pick(r, []string{"bnb", "xrp", "hard"}), amt()}}
+		}
+		if r.Chance(14, 100) { // refused by ValidateBasic
+			c.Coins = pick(r, [][]c17Coin{{}, {{"usdx", 5}, {"ukava", 5}}, {{"ukava", 5}, {"ukava", 5}}, {{"ukava", 0}}, {{"ukava", -5}}, {{"u", 5}}, {{"ukava", 5}, {"usdx", 0}},
+				{{"Ukava", 5}, {"ukava", 5}}, {{"1kava", 5}}, {{"ukava", 5}, {"usd x", 7}}})
+		}
+	default:
+		c.CType = pick(r, []string{"xrp-a", "xrp-a", "xrp-a", "xrp-a", "bnb-a", "nosuch-a"})
+		if kind == "cdprepay" {
+			c.Coins = []c17Coin{{"usdx", int64(pick(r, []int{1, 1_000_000, 5_000_000, 20_000_000, 55_000_000, 60_000_000, 900_000_000}))}}
+		} else {
+			c.Coins = []c17Coin{{"xrp", int64(pick(r, []int{1, 1_000_000_000, 40_000_000_000, 150_000_000_000, 190_000_000_000, 200_000_000_000, 900_000_000_000}))}}
+		}
+		if r.Chance(6, 100) {
+			c.Coins[0].D = pick(r, []string{"usdx", "xrp", "bnb"})
+		}
+		if r.Chance(14, 100) { // refused by ValidateBasic
+			switch r.Intn(4) {
+			case 0:
+				c.CType = pick(r, []string{"", " ", "\t "})
+			case 1:
+				c.Coins[0].A = pick(r, []int64{0, -1})
+			case 2:
+				c.Coins[0].D = pick(r, []string{"x", "9xrp", "us dx"})
+			default:
+				c.Coins = nil
+			}
+		}
+	}
+	return c
+}
+
+var communityKinds = []string{"lenddeposit", "lendwithdraw", "cdprepay", "cdpwithdraw"}
+
+func (g *c17Gen) genContent(perm *c17Perm, prev *c17Snap) *c17Content {
+	c := g.genContent0(perm, prev)
+	if g.r.Chance(3, 100) { // refused by govv1beta1.ValidateAbstract, whatever the type
+		c.Meta = 1 + g.r.Intn(3)
+	}
+	return c
+}
+
+func (g *c17Gen) genContent0(perm *c17Perm, prev *c17Snap) *c17Content {
+	r := g.r
+	switch r.Pick(66, 9, 3, 18, 2, 2) {
 	case 1:
 		return &c17Content{Kind: "text"}
 	case 2:
 		return &c17Content{Kind: "cchange"}
+	case 3:
+		return g.genCommunity(pick(r, communityKinds))
+	case 4:
+		return &c17Content{Kind: "cancelupgrade"}
+	case 5:
+		return &c17Content{Kind: "poolspend"}
 	}
 	c := &c17Content{Kind: "param"}
 	n := 1
@@ -633,6 +861,12 @@ func (g *c17Gen) genOp(prev *c17Snap) c17Op {
 	if len(g.script) == 0 && r.Chance(4, 100) {
 		g.script = g.staleUpgradeScript()
 	}
+	if len(g.script) == 0 && r.Chance(7, 100) {
+		g.script = g.communityScript()
+	}
+	if len(g.script) == 0 && r.Chance(3, 100) {
+		g.script = g.movedParamScript(prev)
+	}
 	if len(g.script) > 0 {
 		op := g.script[0]
 		g.script = g.script[1:]
@@ -657,6 +891,20 @@ func (g *c17Gen) genOp(prev *c17Snap) c17Op {
 			// directed: a sub-parameter rule on a registered subspace's unset key makes allowsParamChange panic
 			perm := c17Perm{Kind: "params", ACs: []c17AC{{P: -2, Single: []string{"x"}}}}
 			return c17Op{Kind: "allows", Perm: &perm, Content: &c17Content{Kind: "param", Changes: []c17Change{{-2, `{"x":"1"}`}}}}
+		}
+		if g.matrix == 0 || r.Chance(22, 100) {
+			// the permission matrix: every permission type against every proposal type, in turn
+			n := g.idx + 37*g.matrix
+			g.matrix++
+			perm := c17Perm{Kind: c17PermKinds[n%len(c17PermKinds)]}
+			if perm.Kind == "params" {
+				perm = c17GenPerm(r, false)
+			}
+			content := g.anyContent(c17ContentKinds[(n/len(c17PermKinds))%len(c17ContentKinds)], &perm, prev)
+			if r.Chance(1, 20) {
+				content.Meta = 1 + r.Intn(3)
+			}
+			return c17Op{Kind: "allows", Perm: &perm, Content: content}
 		}
 		var perm c17Perm
 		if len(ids) > 0 && r.Chance(65, 100) {
@@ -700,12 +948,41 @@ func (g *c17Gen) genOp(prev *c17Snap) c17Op {
 			}
 		}
 		op.Content = g.genContent(pp, prev)
+		if r.Chance(10, 100) { // any proposal type, whatever the committee's permissions - rather one they do not cover
+			k := pick(r, c17ContentKinds)
+			if c, ok := w.coms[op.Com]; ok {
+				for i := 0; i < 3 && anyTypeAllows(c.Perms, k); i++ {
+					k = pick(r, c17ContentKinds)
+				}
+			}
+			op.Content = g.anyContent(k, pp, prev)
+			return op
+		}
 		if c, ok := w.coms[op.Com]; ok && r.Chance(22, 100) {
 			for _, pm := range c.Perms {
 				if pm.Kind == "other" || pm.Kind == "god" {
 					op.Content = g.genUpgrade()
 					break
 				}
+			}
+		}
+		if c, ok := w.coms[op.Com]; ok && anyTypeAllows(c.Perms, "cancelupgrade") && r.Chance(12, 100) {
+			op.Content = &c17Content{Kind: pick(r, []string{"cancelupgrade", "cancelupgrade", "poolspend", "lenddeposit"})}
+			if op.Content.Kind == "lenddeposit" {
+				op.Content = g.genCommunity("lenddeposit")
+			}
+			return op
+		}
+		if c, ok := w.coms[op.Com]; ok && r.Chance(18, 100) {
+			// a community proposal of a kind the committee has a permission for
+			var ks []string
+			for _, k := range communityKinds {
+				if anyTypeAllows(c.Perms, k) {
+					ks = append(ks, k)
+				}
+			}
+			if len(ks) > 0 {
+				op.Content = g.genCommunity(pick(r, ks))
 			}
 		}
 		return op
